@@ -174,10 +174,12 @@ TEXTS.update({
         "text": "Lean theorems on the cache-as-actor model for every number of callers and every interleaving of calls, processing instants and returns: the processed "
                 "requests replayed sequentially give the state and exactly the computed results; every result received is the one computed at the request's processing "
                 "instant; a request that had returned before another was issued is processed before it (linearizable with the processing instant as linearization point); "
-                "List is a read of the whole state at one instant and writes are applied in one step. Tie: atomicity check of real concurrent histories, plus the race detector.",
+                "List is a read of the whole state at one instant and writes are applied in one step. The history checker the driver runs (Lin.accepts) is proved to accept "
+                "exactly the well-formed single-writer histories that have a linearization (lin_accepts_sound, lin_rejects_sound). "
+                "Tie: that checker applied to real concurrent histories of the cache, plus the race detector.",
         "design_ref": "DESIGN.md §7 C15",
-        "note": "Partial: data-race freedom is a property of the Go runtime execution, exhibited by the race detector on sampled schedules, not proved. The executable history "
-                "checker is not proved sound in Lean (it implements the classical single-writer atomicity conditions).",
+        "note": "Partial: data-race freedom is a property of the Go runtime execution, exhibited by the race detector on sampled schedules, not proved. Mapping a returned "
+                "list to a state index and the Get() window test are unproved driver code.",
         "technique": "Lean 4 proof (invariant of the actor transition system: sequential replay + real-time order) + linearizability checking of real histories, race detector",
     },
 })
